@@ -1,6 +1,6 @@
 import json
 from mindsdb_sql.parser.ast.base import ASTNode
-from mindsdb_sql.parser.utils import indent
+from mindsdb_sql.parser.utils import indent, json_to_sql
 
 
 class CreateDatabase(ASTNode):
@@ -54,6 +54,6 @@ class CreateDatabase(ASTNode):
         if self.parameters is not None:
             # an empty PARAMETERS {} is part of the tree too (`parameters={}` vs `None`); without ENGINE no comma is read
             comma = ',' if engine_str else ''
-            parameters_str = f'{comma} PARAMETERS = {json.dumps(self.parameters, ensure_ascii=False)}'
+            parameters_str = f'{comma} PARAMETERS = {json_to_sql(self.parameters)}'
         out_str = f'CREATE{replace_str} DATABASE {"IF NOT EXISTS " if self.if_not_exists else ""}{self.name.to_string()} {engine_str}{parameters_str}'
         return out_str
